@@ -227,9 +227,12 @@ def advanceN (exons : List IBlk) : Nat → Int → Int
 /-- every position of `[a, b)` lies in some exon (adjacent / overlapping exons may share the work) -/
 def coveredBy (exons : List IBlk) (a b : Int) : Bool := decide (b ≤ advanceN exons exons.length a)
 
-/-- every non-empty CDS block is covered by the exons -/
-def cdsInsideExons (exons cds : List IBlk) : Bool :=
-  cds.all (fun c => c.1 == c.2 || coveredBy exons c.1 c.2)
+/-- a CDS block lies in the exons: a non-empty block is covered position by position, an empty one sits inside
+    (or at the edge of) an exon -/
+def blockInside (exons : List IBlk) (c : IBlk) : Bool :=
+  if c.1 == c.2 then exons.any (fun x => decide (x.1 ≤ c.1) && decide (c.2 ≤ x.2)) else coveredBy exons c.1 c.2
+
+def cdsInsideExons (exons cds : List IBlk) : Bool := cds.all (blockInside exons)
 
 def validTx (exS exE : List Int) (cs ce : Option (List Int)) (cf : Option (List Int)) : Bool :=
   validBlocks exS exE &&
@@ -269,17 +272,15 @@ def okMkVarColl (vs : List IBlk) : Out (Int × Int) → Bool
 
 /-! ### Location.scan_windows(window_size, step_size, start_pos) -/
 
-/-- number of k ≥ 0 with `sp + k*step + w ≤ n`, counted by search over k ≤ n -/
-def windowCount (n w step sp : Int) : Nat :=
-  ((List.range (n.toNat + 1)).filter (fun (k : Nat) => decide (sp + (k : Int) * step + w ≤ n))).length
-
 def validScan (directional : Bool) (n w step sp : Int) : Bool :=
   directional && decide (0 ≤ sp) && decide (sp < n) && decide (1 ≤ w) && decide (1 ≤ step) && decide (sp + w ≤ n)
 
+/-- `k` windows: window `k-1` (hence every earlier one, the step being positive) still fits, window `k` does not -/
 def okScanWin (directional : Bool) (n w step sp : Int) : Out Nat → Bool
   | .internal => false
   | .refused => !validScan directional n w step sp
-  | .ok k => validScan directional n w step sp && k == windowCount n w step sp
+  | .ok k => validScan directional n w step sp && decide (1 ≤ k) &&
+      decide (sp + ((k : Int) - 1) * step + w ≤ n) && decide (n < sp + (k : Int) * step + w)
 
 /-! ### grid lines: `ok wf` or a documented class -/
 
